@@ -230,6 +230,7 @@ class Files:
         from gen import c11_reads as R
         self.dir = tempfile.mkdtemp(prefix='c11_', dir='/dev/shm')
         hdr = G.header(R.CONTIGS)
+        hdr_rev = G.header(list(reversed(R.CONTIGS)))
         self.reads = R.all_reads(2)
         self.by_ri = {rd['ri']: rd for rd in self.reads}
         self.sets = {
@@ -241,8 +242,13 @@ class Files:
         for name, rds in self.sets.items():
             self.bam[name] = G.write_bam(os.path.join(self.dir, f'{name}.bam'), hdr, [R.to_pysam(rd, hdr) for rd in rds])
             # the same reads dealt alternately over two files: every sample and most cells occur in both
-            self.bam2[name] = [G.write_bam(os.path.join(self.dir, f'{name}_{k}.bam'), hdr,
-                                           [R.to_pysam(rd, hdr) for rd in rds[k::2]]) for k in (0, 1)]
+            # the second file lists the contigs in the OPPOSITE order in its header (another aligner index): a reference id
+            # means something within one file only
+            n_contigs = len(R.CONTIGS)
+            self.bam2[name] = [G.write_bam(os.path.join(self.dir, f'{name}_0.bam'), hdr,
+                                           [R.to_pysam(rd, hdr) for rd in rds[0::2]]),
+                               G.write_bam(os.path.join(self.dir, f'{name}_1.bam'), hdr_rev,
+                                           [R.to_pysam(rd, hdr_rev, contig_index_of=lambda i: n_contigs - 1 - i) for rd in rds[1::2]])]
         self.bed = os.path.join(self.dir, 'regions.bed')
         with open(self.bed, 'w') as f:
             for c, s, e, n in R.BED:
